@@ -76,3 +76,34 @@ package certs
 //@           has(s.certs, inter.Parent) &&
 //@           (let root = s.certs[inter.Parent] in
 //@               root.Type == Root && valid(root, now) && root.Fingerprint == inter.Parent && issued(inter, root)))))
+
+// ===========================================================================
+// C18: certificate names and id chunks - what the encoder accepts is what the decoder accepts
+// ===========================================================================
+// A label longer than 252 bytes (block size over one byte) is rejected, not wrapped.
+//@ func (name *Name) WriteTo(w io.Writer) (n int64, err error)
+//@   property C18
+//@   modifies opaque(w)
+//@   ensures err == nil ==> len(name.Label) <= 252
+//@   ensures len(name.Label) > 252 ==> err != nil && !called(io.Writer.Write)
+
+// An id chunk is emitted only if it serialises to at most 512 bytes ...
+//@ func (chunk *IDChunk) WriteTo(w io.Writer) (n int64, err error)
+//@   property C18
+//@   ensures err == nil ==> resultof(certs.IDChunk.SerializedLen, n) <= 512
+// ... and the decoder accepts every announced length from 2 to 512: with such a length it does not take the
+// invalid-length return (which is the only error return before the first name is read)
+//@ func (chunk *IDChunk) ReadFrom(r io.Reader) (n int64, err error)
+//@   property C18 C11
+//@   after binary.Read let announced = chunkLen
+//@   ensures callcount(binary.Read) == 1 && resultof(binary.Read, err) == nil && 2 <= announced && announced <= 512 && !called(certs.Name.ReadFrom) ==> err == nil
+//@   ensures err == nil ==> 2 <= announced && announced <= 512
+//@ func (chunk *IDChunk) SerializedLen() (n int)
+//@   property C18
+//@   pure
+//@ func binary.Read(r io.Reader, order binary.ByteOrder, data any) (err error)
+//@   assume standard library: decodes from r into the target behind data (unknown effect: everything reachable is forgotten)
+//@   modifies *
+//@ func (w io.Writer) Write(p []byte) (n int, err error)
+//@   assume interface contract of io.Writer: changes only the writer's own state
+//@   modifies opaque(w)
